@@ -238,7 +238,7 @@ func RunC16(r *core.Run) {
 	st.Exhaustive = true
 	st.Space = "every substitute/insert (all 256 byte values)/delete/transpose neighbour of every table name in lower, upper and capitalised form"
 	// D: 8-bit samples of length 3 and random long names
-	r.Stage("random-names", r.Pick(400000, 40000000), func(w *core.Worker, idx int64) {
+	r.Stage("random-names", r.Pick(2000000, 60000000), func(w *core.Worker, idx int64) {
 		rr := core.NewRand(r.Seed, 0xC16, 4, uint64(idx))
 		var nm []byte
 		switch rr.Intn(4) {
@@ -447,7 +447,7 @@ func RunC20(r *core.Run) {
 	})
 	st.Exhaustive = true
 	st.Space = es.Desc()
-	r.Stage("random-embedded", r.Pick(400000, 20000000), func(w *core.Worker, idx int64) {
+	r.Stage("random-embedded", r.Pick(2000000, 60000000), func(w *core.Worker, idx int64) {
 		rr := core.NewRand(r.Seed, 0xC20, 2, uint64(idx))
 		var b []byte
 		n := rr.Range(0, 4)
